@@ -115,12 +115,13 @@ func keyID(pub any) []byte {
 }
 
 type certOpts struct {
-	serial *big.Int
-	cn     string
-	isCA   bool
-	noSKI  bool
-	ski    []byte // overrides the computed key identifier
-	sigAlg x509.SignatureAlgorithm
+	serial   *big.Int
+	cn       string
+	isCA     bool
+	noSKI    bool
+	ski      []byte    // overrides the computed key identifier
+	notAfter time.Time // overrides certNotAfter
+	sigAlg   x509.SignatureAlgorithm
 }
 
 func mkCert(seed uint64, o certOpts, pub any, parent *smx509.Certificate, signKey any) *smx509.Certificate {
@@ -133,6 +134,9 @@ func mkCert(seed uint64, o certOpts, pub any, parent *smx509.Certificate, signKe
 		BasicConstraintsValid: true,
 		IsCA:                  o.isCA,
 		SignatureAlgorithm:    o.sigAlg,
+	}
+	if !o.notAfter.IsZero() {
+		tmpl.NotAfter = o.notAfter
 	}
 	if o.isCA {
 		tmpl.KeyUsage = x509.KeyUsageCertSign | x509.KeyUsageCRLSign | x509.KeyUsageDigitalSignature
@@ -192,6 +196,12 @@ func fix() *fixtures {
 			k := sm2Key(0xC16_0200)
 			c := mkCert(20, certOpts{serial: next(), cn: "sm2 direct"}, &k.PublicKey, root, rootK)
 			add(&ident{name: "sm2-direct", kind: "sm2", key: k, cert: c, root: root})
+		}
+		// a certificate that expired long ago (valid 2000-01-01 .. 2001-01-01)
+		{
+			k := sm2Key(0xC16_0203)
+			c := mkCert(24, certOpts{serial: next(), cn: "sm2 expired", notAfter: time.Date(2001, 1, 1, 0, 0, 0, 0, time.UTC)}, &k.PublicKey, root, rootK)
+			add(&ident{name: "sm2-expired", kind: "sm2", key: k, cert: c, root: root})
 		}
 		// the key of sm2-1 once more in a certificate without a subjectKeyIdentifier extension
 		{
@@ -297,7 +307,7 @@ func selfTestFixtures() error {
 	// x509 layer, which C15 checks; here it only validates the fixtures)
 	for _, n := range f.names {
 		i := f.ids[n]
-		if i.root == i.cert || i.root.SignatureAlgorithm == x509.SHA1WithRSA || i.root.SignatureAlgorithm == x509.ECDSAWithSHA1 {
+		if n == "sm2-expired" || i.root == i.cert || i.root.SignatureAlgorithm == x509.SHA1WithRSA || i.root.SignatureAlgorithm == x509.ECDSAWithSHA1 {
 			continue
 		}
 		roots := smx509.NewCertPool()
